@@ -142,10 +142,22 @@ def field_role(f):
     return None
 
 
+
+
+def role_of_field_name(f):
+    if f in ("obs", "fcst", "pit"):
+        return f
+    if f[0] in "pq" and f[1:].replace(".", "", 1).isdigit():
+        return (f[0], float(f[1:]))
+    return None
+
+
 def all_scores(ctx, data, ref, tag):
     """every metric x axis x input; returns {(metric, axis, input): tuple of floats | 'exit' | 'crash:site'}"""
     import verif.axis
     out = {}
+    uses = {}         # metric name -> set of roles it requested in THIS call (from the proxy)
+    all_scores.last_uses = uses
     for name, m, iv in metric_menu():
         for ax in AXES:
             axis = verif.axis.get(ax)
@@ -163,6 +175,8 @@ def all_scores(ctx, data, ref, tag):
                 for v in np.asarray(res).reshape(-1):
                     vals.append(float(v))
                 out[(name, ax, i)] = tuple(vals)
+                for fields, ii_, a_, ak_ in spy.requests:
+                    uses.setdefault(name, set()).update(r for r in (field_role(f) for f in fields) if r is not None)
                 # oracle (iii): slices in which one of the metric's own requests has no valid case
                 if ref is not None:
                     for k in range(len(vals)):
@@ -249,6 +263,12 @@ def h_single(ctx):
             e = encs_menu[0]        # minus infinity is only judged for obs / fcst (non-finite = missing there); see ASSUMPTIONS
         marks.append(cells[ci])
         encs.append(e)
+    # -T 48 (mean over the trailing 48 h of lead times) for marks in the fields that are pre-aggregated: a value missing at the
+    # first lead time is missing in every window that contains it, also for probabilities derived from the members
+    agg = None
+    if ctx.params.get("agg") and all(m[1] in ("obs", "fcst", "e0", "e1", "e2") for m in marks) and all(e == encs_menu[0] for e in encs):
+        agg = ctx.choose("-T", (None, 48), free=True)
+    kwr = {"agg_len": agg, "agg_axis": "leadtime", "agg_method": "mean"} if agg else {}
     marked = [a.copy() for a in inputs]
     canonical = [a.copy() for a in inputs]
     file_inputs = [a.copy() for a in inputs]
@@ -266,13 +286,18 @@ def h_single(ctx):
             for c in canonical:
                 c.fields[f].pop(pos, None)
     ctx.note("marks", [(ii, f, list(pos), e) for (ii, f, pos), e in zip(marks, encs)])
-    ref = RD.RefData(marked)
+    ref = RD.RefData(marked, **kwr)
     import verif.data
+    import verif.axis
+    import verif.aggregator
+    kwd = {"dim_agg_length": agg, "dim_agg_axis": verif.axis.Leadtime(), "dim_agg_method": verif.aggregator.Mean()} if agg else {}
+    if agg:
+        ctx.flag("agg")
     kind, objs, site, out = H.quiet_call(build_from_files, file_inputs, via, marks, encs)
     if kind != "ok":
         ctx.fail("read-%s:%s" % (kind, site), stdout=out[-200:])
         return
-    kind, data, site, out = H.quiet_call(verif.data.Data, objs)
+    kind, data, site, out = H.quiet_call(verif.data.Data, objs, **kwd)
     if kind != "ok":
         ctx.fail("data-%s:%s" % (kind, site), stdout=out[-200:])
         return
@@ -280,21 +305,48 @@ def h_single(ctx):
     sig = CD.check_requests(ctx, data, ref, ROLE_SETS, AXES + ["all"], via)
     # (ii) metamorphic: all metrics on the file-based dataset == on the canonical in-memory dataset
     got = all_scores(ctx, data, ref, via)
-    ckey = (seed, tuple(sorted((f, pos) if e != "<absent-row>" else ("*", pos) for (ii, f, pos), e in zip(marks, encs))))
+    uses_now = all_scores.last_uses
+    ckey = (seed, agg, tuple(sorted((f, pos) if e != "<absent-row>" else ("*", pos) for (ii, f, pos), e in zip(marks, encs))))
     if ckey not in _CANON:
-        kindc, datac, sitec, _ = CD.make_data(canonical)
+        kindc, datac, sitec, _ = CD.make_data(canonical, **kwd)
         if kindc != "ok":
             raise core.E1.HarnessError("canonical dataset rejected: %r" % (sitec,))
-        refc = RD.RefData(canonical)
+        refc = RD.RefData(canonical, **kwr)
         if len(_CANON) > 5000:
             _CANON.clear()
         _CANON[ckey] = all_scores(ctx, datac, refc, "canonical")
     exp = _CANON[ckey]
     nonfin = 0
+    if agg and any(m[1].startswith("e") for m in marks):
+        # a member missing in one file does not make the other file's members missing: with -T (probabilities from the members) the
+        # canonical form is not equivalent; oracle (i) judges these cases
+        exp = {}
     for key in exp:
         if not same(exp[key], got[key]):
             ctx.fail("%s:metamorphic:%s:%s" % (via, key[0], "+".join(sorted(set(m[1] for m in marks)))), metric=key[0], axis=key[1], input=key[2],
                      canonical=exp[key], got=got[key], encodings=encs)
+    # (iv) "the score of the same data with those cases deleted": for a metric that requests every marked field, the marked
+    # cases are deleted altogether (every field, every input) - whatever the order or grouping of its requests
+    mroles = [role_of_field_name(f) for (ii, f, pos) in marks]
+    if all(r is not None for r in mroles):
+        dkey = ("deleted", seed, agg, tuple(sorted(set(pos for (ii, f, pos) in marks))))
+        if dkey not in _CANON:
+            deleted = [a.copy() for a in inputs]
+            for (ii, f, pos) in marks:
+                for dd in deleted:
+                    for g in FIELDS:
+                        dd.fields[g].pop(pos, None)
+            kindd, datad, sited, _ = CD.make_data(deleted, **kwd)
+            if kindd != "ok":
+                raise core.E1.HarnessError("dataset with the cases deleted was rejected: %r" % (sited,))
+            _CANON[dkey] = all_scores(ctx, datad, RD.RefData(deleted, **kwr), "deleted")
+        expd = _CANON[dkey]
+        for key in expd:
+            if all(r in uses_now.get(key[0], set()) for r in mroles):
+                ctx.flag("cases-deleted")
+                if not same(expd[key], got[key]):
+                    ctx.fail("%s:differs-from-the-score-with-the-cases-deleted:%s" % (via, key[0]), metric=key[0], axis=key[1], input=key[2],
+                             cases_deleted=expd[key], got=got[key], marked=[(ii, f, list(pos)) for (ii, f, pos) in marks])
     # non-trivial: counting the placeholder as a number would have changed a result -> approximated by: the marked case
     # was valid in the unmarked dataset for some request
     ref0 = RD.RefData(inputs)
@@ -412,7 +464,7 @@ def h_arrays(ctx):
 def plan(tier):
     q = tier == "quick"
     small = ["obs", "fcst", "p1", "e0"]
-    p = [("text-1", h_single, {"via": "text", "marks": 1, "fields": FIELDS}),
+    p = [("text-1", h_single, {"via": "text", "marks": 1, "fields": FIELDS, "agg": True}),
          ("nc-1", h_single, {"via": "nc", "marks": 1, "fields": FIELDS}),
          ("text-2", h_single, dict({"via": "text", "marks": 2, "fields": ["obs", "fcst"] if q else FIELDS, "enc_all": not q},
                                    **({"encs_first": ["-999", "NA", "inf", "<absent-row>"]} if q else {}))),
@@ -439,7 +491,7 @@ def run(tier, only=None):
         subs.append(core.Sub.from_e1(name, st, bound="full over (input, field, cell) x encoding %r" % ({k: v for k, v in params.items() if k != "fields"},),
                                      rule="one execution = a dataset with the marked cell(s) written in the chosen encoding; 13 request sets x 4 axes vs the reference, "
                                           "and all metrics x 3 axes x 2 inputs vs the canonical in-memory dataset; non-trivial = the marked case was valid before marking",
-                                     required_flags=("empty-slice",) if "struct" in name else (), wall=time.time() - t0))
+                                     required_flags=("empty-slice",) if "struct" in name else ("cases-deleted", "agg") if name == "text-1" else ("cases-deleted",), wall=time.time() - t0))
     return subs
 
 
